@@ -37,6 +37,7 @@ def flt_src(kind, flt):
     return rec(flt)
 
 
+XPS = ["-", "-", "context", "blocking", "return_response", "trigger_type", "kwargs"]
 FILTERS = [{"k": "none"}, {"k": "none"}, {"k": "eq", "f": "v", "c": "1"}, {"k": "ne", "f": "v", "c": "1"},
            {"k": "and", "l": {"k": "eq", "f": "v", "c": "1"}, "r": {"k": "eq", "f": "sl", "c": "0"}},
            {"k": "not", "a": {"k": "eq", "f": "v", "c": "0"}}, {"k": "nz", "f": "v"}, {"k": "nz", "f": "sl"}]
@@ -66,6 +67,10 @@ def gen_scenario(r, sid):
             if r.random() < 0.2:
                 kw["extra"] = "x"
             trigs.append({"fid": "f%d" % f, "tag": "d%d" % (d + 1), "kind": kind, "key": key, "flt": r.choice(FILTERS), "kw": kw})
+    # an extra parameter of the function's event.fire(), named like an option of some other call
+    xps = {"f%d" % f: r.choice(XPS) for f in range(nfun)}
+    for t in trigs:
+        t["xp"] = xps[t["fid"]]
     n = 0
     bursts = []
     for _ in range(r.randint(2, 5)):
@@ -75,7 +80,12 @@ def gen_scenario(r, sid):
             kind = r.choice(["event", "event", "event", "mqtt", "webhook"])
             key = r.choice(KEYS[kind][:2]) if kind != "webhook" else r.choice(sorted(used_wh) or ["w1"])
             # v = "x": not a number - a filter int(v) raises on it (no run, and the trigger must keep serving)
-            msgs.append({"kind": kind, "key": key, "d": {"n": "m%d" % n, "v": r.choice("0011x"), "sl": r.choice("001")}})
+            d = {"n": "m%d" % n, "v": r.choice("0011x"), "sl": r.choice("001")}
+            # messages of one type need not carry the same keys: a filter that reads a missing one raises (no run)
+            for fld in ("v", "sl"):
+                if r.random() < 0.15:
+                    del d[fld]
+            msgs.append({"kind": kind, "key": key, "d": d})
         bursts.append({"msgs": msgs, "gap": r.choice([0, 1, 3, 10])})
     return {"sid": sid, "trigs": trigs, "bursts": bursts}
 
@@ -94,6 +104,8 @@ def source(scn):
                 args.append(repr(fs))
             args.append("kwargs=%r" % t["kw"])
             out.append("@%s_trigger(%s)" % (t["kind"], ", ".join(args)))
+        xp = [t for t in scn["trigs"] if t["fid"] == fid][0].get("xp", "-")
+        xp_src = "" if xp == "-" else ", %s='X'" % xp
         out.append(
             "def %(f)s(**kw):\n"
             "    d = kw\n"
@@ -102,12 +114,12 @@ def source(scn):
             "    elif kw.get('trigger_type') == 'webhook':\n"
             "        d = kw['payload']\n"
             "    vf.rec('start', '%(f)s', kw, task.current_task())\n"
-            "    event.fire('out', n=d['n'], fid='%(f)s', tag=kw['dec'], v=d['v'])\n"
+            "    event.fire('out', n=d['n'], fid='%(f)s', tag=kw['dec'], v=d.get('v', '-')%(xp)s)\n"
             "    state.set('pyscript.out_%(f)s_' + kw['dec'], d['n'])\n"
             "    service.call('test', 'sink', n=d['n'], fid='%(f)s', tag=kw['dec'])\n"
-            "    if d['sl'] == '1':\n"
+            "    if d.get('sl') == '1':\n"
             "        task.sleep(7)\n"
-            "    vf.rec('end', '%(f)s', d['n'], kw['dec'], task.current_task())\n" % {"f": fid})
+            "    vf.rec('end', '%(f)s', d['n'], kw['dec'], task.current_task())\n" % {"f": fid, "xp": xp_src})
     return "\n".join(out)
 
 
@@ -240,6 +252,8 @@ def run_case(scn, legacy):
     if not legacy:
         patches.append(patch("custom_components.pyscript.decorators.mqtt.mqtt.async_subscribe", fake_subscribe))
     world.run({"hello.py": source(scn)}, body, legacy=legacy, extra_patches=patches)
+    for t in scn["trigs"]:
+        t.setdefault("xp", "-")        # scenarios recorded before the extra event.fire() parameter existed
     return {"id": "%s/%s" % (scn["sid"], "legacy" if legacy else "dm"), "trigs": scn["trigs"], "bursts": out_bursts,
             "ends": ends, "legacy": legacy, "scn": scn}
 
@@ -332,7 +346,7 @@ def main(ctx):
     if ctx.quick:
         base = base.replace("MaxMsgs = 3", "MaxMsgs = 2")
     open(cfg, "w").write(base)
-    wnames = ("W_NoOverlap", "W_NoFiltered")
+    wnames = ("W_NoOverlap", "W_NoFiltered", "W_NoFilterError")
     for wname in wnames:
         open(os.path.join(ctx.scratch, "Msgs_%s.cfg" % wname), "w").write(
             "SPECIFICATION Spec\nCONSTANTS MaxMsgs = 2\nINVARIANT %s\nCHECK_DEADLOCK FALSE\n" % wname)
@@ -347,11 +361,11 @@ def main(ctx):
     if not res.ok:
         ctx.report({"clause": "model:" + res.violated}, "Msgs.tla violates %s" % res.violated, {"cex": res.cex})
     ctx.add_tlc(res, "Msgs(trigger sets x messages x interleavings)")
-    for wname, wres in zip(wnames, outs[1:3]):
+    for wname, wres in zip(wnames, outs[1:1 + len(wnames)]):
         if wres.ok:
             raise MachineryFailure("witness %s holds: the model never exercises the case" % wname)
     ctx.cov["witnesses_violated_as_expected"] = len(wnames)
-    cases = [x for r in outs[3] for x in r]
+    cases = [x for r in outs[1 + len(wnames)] for x in r]
     res = validate(ctx, cases, "main")
     rejected = {r["id"] for r in res.rejects}
     ctx.cov["evaluations"] = len(cases)
